@@ -168,11 +168,10 @@ func Modf(f float64) (float64, float64) {
 	if f == posInf || f == negInf {
 		return f, nan
 	}
-	if 1/f == negInf {
-		return f, f
-	}
-	frac := Mod(f, 1)
-	return f - frac, frac
+	// The integer part keeps the sign of f even when it is zero, and so does
+	// the fractional part.
+	i := Trunc(f)
+	return i, Copysign(f-i, f)
 }
 
 func NaN() float64 {
